@@ -61,6 +61,7 @@ mod refupdate;
 #[path = "../c12/zonekit.rs"]
 mod zonekit;
 mod basegen;
+mod client;
 mod leak;
 
 use std::collections::BTreeMap;
@@ -197,6 +198,35 @@ fn observe(w: &mut World, bytes: &[u8], now: u64) -> Obs {
     if s != w.base {
         o.zone_changed = true;
         let _ = w.reset();
+    }
+    o
+}
+
+/// Observation of the twin server of the leak clause: as `observe`, but the zone snapshot is only
+/// taken when the reply does not carry an error rcode (the only-if clause watches the first
+/// server's zone for every request; here only the responses are compared).
+fn observe_twin(w: &mut World, bytes: &[u8], now: u64) -> Obs {
+    set_clock(now);
+    let mut o = Obs { decoder_refused: false, zone_changed: false, axfr_data: false, rcode: None, replies: vec![], panic: None };
+    match send(&w.rt, &w.cat, bytes) {
+        Ok(v) => o.replies = v,
+        Err(SendErr::Parse(_)) => {
+            o.decoder_refused = true;
+            return o;
+        }
+        Err(SendErr::Panic(p)) => {
+            o.panic = Some(p);
+            let _ = w.reset();
+            return o;
+        }
+    }
+    o.rcode = o.replies.last().and_then(|r| rcode_of(r));
+    if !matches!(o.rcode, Some(rc) if rc != NOERROR) {
+        let s = snapshot(&w.rt, &w.h);
+        if s != w.base {
+            o.zone_changed = true;
+            let _ = w.reset();
+        }
     }
     o
 }
@@ -457,8 +487,9 @@ impl<'a> Checker<'a> {
                 // the exemption only covers invalidity that stems from the edit: at this server clock
                 // the genuine request itself must be acceptable (otherwise the request is stale, and
                 // taking effect is exactly what the statement forbids)
-                let exempt = same_parse(&m.bytes, genuine) && !matches!(reftsig::judge_request(genuine, &keys, now), Verdict::Invalid(_));
-                if effect && exempt {
+                // (evaluated lazily: two full decodes)
+                let exempt = || same_parse(&m.bytes, genuine) && !matches!(reftsig::judge_request(genuine, &keys, now), Verdict::Invalid(_));
+                if effect && exempt() {
                     // don't-care: the edit touches nothing hickory's message model carries (reserved
                     // header bit, bytes after the end of the message): what is signed and what is
                     // parsed are unchanged
@@ -475,13 +506,13 @@ impl<'a> Checker<'a> {
                 } else {
                     self.rep.count("outcome/invalid-rejected");
                 }
-                self.judge_leak(w, wb.as_deref_mut(), m, &o, now, has_prereq, exempt, why, mk_case);
+                self.judge_leak(w, wb.as_deref_mut(), m, &o, now, has_prereq, &exempt, why, mk_case);
             }
         }
     }
 
     /// LEAK clause (non-interference) for a request the reference judged invalid
-    fn judge_leak(&mut self, w: &mut World, wb: Option<&mut World>, m: &Mutant, o: &Obs, now: u64, has_prereq: bool, exempt: bool, why: &str, mk_case: MkCase) {
+    fn judge_leak(&mut self, w: &mut World, wb: Option<&mut World>, m: &Mutant, o: &Obs, now: u64, has_prereq: bool, exempt: &dyn Fn() -> bool, why: &str, mk_case: MkCase) {
         if o.decoder_refused {
             // never reached a zone handler; the decoder has no access to the zone
             return;
@@ -492,57 +523,73 @@ impl<'a> Checker<'a> {
             self.rep.count("leak/skipped-opcode-query");
             return;
         }
-        if exempt {
-            // hickory takes these bytes for the authentic request (see only-if don't-care)
-            self.rep.count("leak/skipped-same-parse");
-            return;
-        }
         let is_update = h.opcode() == 5 && !h.qr();
         if has_prereq && is_update {
             self.rep.count("leak/invalid_requests_with_prereq_judged");
         }
         self.rep.eval();
         // (a) direct: a prerequisite-evaluation result can only come from looking at zone data
-        if let (true, Some(rc)) = (is_update, o.rcode) {
-            if matches!(rc, NXDOMAIN | YXDOMAIN | YXRRSET | NXRRSET) {
-                self.rep.violation(
-                    "leak",
-                    &format!("rcode-{}:{}", rcode_name(rc), positional(&m.class)),
-                    mk_case(w, wb.as_deref(), &m.bytes, now, &m.class),
-                    json!({"reference": format!("invalid: {why}"), "rcode": "one that does not depend on zone content (REFUSED / NOTAUTH / FORMERR ...)"}),
-                    json!({"rcode": rcode_name(rc), "replies": o.replies.iter().map(|r| hex(r)).collect::<Vec<_>>()}),
-                );
-            } else {
-                self.rep.count("leak/rcode-independent-of-zone");
-            }
-        }
+        let direct = match o.rcode {
+            Some(rc) if is_update && matches!(rc, NXDOMAIN | YXDOMAIN | YXRRSET | NXRRSET) => Some(rc),
+            _ => None,
+        };
         // (b) differential: same bytes, same clock, same keys, zone differs in what the prerequisite names
-        let Some(wb) = wb else { return };
-        let ob = observe(wb, &m.bytes, now);
-        self.rep.count("leak/differential_pairs");
-        if let Some(p) = &ob.panic {
-            self.rep.violation("panic", &format!("{}:{}", p.site(), m.class.split('@').next().unwrap_or("")), mk_case(w, Some(wb), &m.bytes, now, &m.class), json!("no panic"), json!({"message": p.message, "location": p.location, "server": "twin"}));
+        let mut diff = None;
+        let mut twin_rcode = None;
+        if let Some(wb) = wb {
+            let ob = observe_twin(wb, &m.bytes, now);
+            self.rep.count("leak/differential_pairs");
+            if let Some(p) = &ob.panic {
+                self.rep.violation("panic", &format!("{}:{}", p.site(), m.class.split('@').next().unwrap_or("")), mk_case(w, Some(wb), &m.bytes, now, &m.class), json!("no panic"), json!({"message": p.message, "location": p.location, "server": "twin"}));
+                return;
+            }
+            twin_rcode = ob.rcode;
+            diff = if ob.zone_changed {
+                Some(("zone-changed".to_string(), json!({"twin_zone_changed": true})))
+            } else if ob.decoder_refused {
+                Some(("reply-count".to_string(), json!({"twin": "decoder refused"})))
+            } else {
+                leak::first_difference(&o.replies, &ob.replies)
+            };
+            if diff.is_none() {
+                self.rep.count("leak/responses-identical");
+            }
+            // witnesses carry the twin zone
+            if direct.is_some() || diff.is_some() {
+                if exempt() {
+                    self.rep.count("leak/dontcare-same-parse");
+                    return;
+                }
+                if let Some(rc) = direct {
+                    self.leak_rcode(w, Some(wb), m, o, now, rc, why, mk_case);
+                }
+                if let Some((what, detail)) = diff {
+                    self.rep.violation(
+                        "leak",
+                        &format!("differs:{}:{}", what, positional(&m.class)),
+                        mk_case(w, Some(wb), &m.bytes, now, &m.class),
+                        json!({"reference": format!("invalid: {why}"), "responses": "identical on both servers (TSIG MAC/time ignored)"}),
+                        json!({"differs": what, "detail": detail, "rcode_a": o.rcode.map(rcode_name), "rcode_b": twin_rcode.map(rcode_name)}),
+                    );
+                }
+            }
             return;
         }
-        let diff = if ob.zone_changed {
-            Some(("zone-changed".to_string(), json!({"twin_zone_changed": true})))
-        } else if ob.decoder_refused {
-            Some(("reply-count".to_string(), json!({"twin": "decoder refused"})))
-        } else {
-            leak::first_difference(&o.replies, &ob.replies)
-        };
-        match diff {
-            None => self.rep.count("leak/responses-identical"),
-            Some((what, detail)) => {
-                self.rep.violation(
-                    "leak",
-                    &format!("differs:{}:{}", what, positional(&m.class)),
-                    mk_case(w, Some(wb), &m.bytes, now, &m.class),
-                    json!({"reference": format!("invalid: {why}"), "responses": "identical on both servers (TSIG MAC/time ignored)"}),
-                    json!({"differs": what, "detail": detail, "rcode_a": o.rcode.map(rcode_name), "rcode_b": ob.rcode.map(rcode_name)}),
-                );
-            }
+        match direct {
+            Some(_) if exempt() => self.rep.count("leak/dontcare-same-parse"),
+            Some(rc) => self.leak_rcode(w, None, m, o, now, rc, why, mk_case),
+            None => {}
         }
+    }
+
+    fn leak_rcode(&mut self, w: &World, wb: Option<&World>, m: &Mutant, o: &Obs, now: u64, rc: u8, why: &str, mk_case: MkCase) {
+        self.rep.violation(
+            "leak",
+            &format!("rcode-{}:{}", rcode_name(rc), positional(&m.class)),
+            mk_case(w, wb, &m.bytes, now, &m.class),
+            json!({"reference": format!("invalid: {why}"), "rcode": "one that does not depend on zone content (REFUSED / NOTAUTH / FORMERR ...)"}),
+            json!({"rcode": rcode_name(rc), "replies": o.replies.iter().map(|r| hex(r)).collect::<Vec<_>>()}),
+        );
     }
 }
 
@@ -818,6 +865,38 @@ fn check_reply(rep: &mut Reporter, cache: &mut BlameCache, w: &mut World, unsign
     p.rcode
 }
 
+/// part G3: the client-side transports built with a signer, against the real server path
+fn check_client(rep: &mut Reporter, w: &mut World, req_kind: &str, unsigned: &[u8], key_idx: usize, time: u64, bits: &[u32], transports: &[&str]) {
+    for t in transports {
+        let run = match *t {
+            "udp" => client::run_udp(w, unsigned, key_idx, time, bits),
+            _ => client::run_mux(w, unsigned, key_idx, time, bits),
+        };
+        // accepted updates changed the zone: back to the initial state for whatever follows
+        if snapshot(&w.rt, &w.h) != w.base {
+            let _ = w.reset();
+        }
+        rep.evals(run.evals);
+        for (k, n) in &run.counts {
+            rep.add(k, *n);
+        }
+        let mk = |what: &str, detail: Value| {
+            let mut c = case_json(w, None, "client", req_kind, unsigned, key_idx, time, &[], time, what);
+            c["transport"] = json!(t);
+            c["flip_bits"] = json!(bits);
+            c["detail"] = detail;
+            c
+        };
+        if let Some(p) = &run.panic {
+            rep.violation("panic", &format!("{}:client-{t}:{}", p.site(), slug(&p.message)), mk("client", json!(null)), json!("no panic"), json!({"message": p.message, "location": p.location}));
+        }
+        for v in run.viols {
+            let what = v.sig.clone();
+            rep.violation(&v.rule, &v.sig, mk(&what, v.detail), v.expected, v.observed);
+        }
+    }
+}
+
 fn gen_keys(rng: &mut Rng) -> Vec<Key> {
     let n = rng.urange(1, 3);
     let algs = [Alg::Sha256, Alg::Sha384, Alg::Sha512];
@@ -855,7 +934,11 @@ fn main() {
         let now = c["server_clock"].as_u64().unwrap_or(T0);
         let req_kind = c["request"].as_str().unwrap_or("update").to_string();
         let class = c["mutation"].as_str().unwrap_or("").to_string();
-        if c["kind"] == "reply" || class == "genuine" {
+        if c["kind"] == "client" {
+            let bits: Vec<u32> = c["flip_bits"].as_array().map(|a| a.iter().map(|x| x.as_u64().unwrap_or(0) as u32).collect()).unwrap_or_default();
+            let t = c["transport"].as_str().unwrap_or("mux").to_string();
+            check_client(&mut rep, &mut w, &req_kind, &unsigned, key_idx, time, &bits, &[t.as_str()]);
+        } else if c["kind"] == "reply" || class == "genuine" {
             check_reply(&mut rep, &mut cache, &mut w, &unsigned, key_idx, time, now, true);
         } else {
             let bytes = unhex(c["bytes"].as_str().unwrap_or(""));
@@ -882,7 +965,43 @@ fn main() {
     for c in ["bitflip", "byteset", "count-edit", "tsig-key-name:unknown", "tsig-algorithm:other-supported", "tsig-time", "tsig-fudge", "tsig-mac:truncated-half", "tsig-mac:extended", "tsig-original-id", "tsig-error", "tsig-other-data", "record-after-tsig", "two-tsigs", "tsig-not-last", "opt-after-tsig", "trailing-bytes", "key:same-name-other-secret", "key:other-name-same-secret", "key:algorithm-field-only", "unsigned", "clock-offset"] {
         rep.must(&format!("mutation/{c}"), 50);
     }
-    // MUSTS-NEW
+    // base-request shapes (per header-flag class, EDNS, prerequisite form x polarity) ...
+    for c in ["rd", "cd", "ad", "tc"] {
+        rep.must(&format!("base/flag/{c}"), 150);
+        // ... and the reply clause reached for each of them
+        rep.must(&format!("reply/verified/{c}"), 400);
+    }
+    rep.must("base/flag/with-opt", 300);
+    rep.must("reply/verified/with-opt", 800);
+    rep.must("base/flag/with-opt-do", 100);
+    rep.must("base/flag/plain", 80);
+    rep.must("base/flag/z", 30);
+    rep.must("base/axfr/ixfr-style-authority", 150);
+    rep.must("base/prereq-rrs/2", 80);
+    rep.must("base/update-rrs/3", 80);
+    for f in basegen::FORMS {
+        for pol in ["satisfied", "unsatisfied"] {
+            rep.must(&format!("base/prereq/{f}/{pol}"), 25);
+        }
+    }
+    // signed error replies (prerequisite failures of authentic requests) verified at the client
+    for rc in ["NXDOMAIN", "YXDOMAIN", "YXRRSET", "NXRRSET"] {
+        rep.must(&format!("reply/verified/rcode-{rc}"), 60);
+    }
+    // client-side transports (part G3)
+    for t in ["mux", "udp"] {
+        rep.must(&format!("client/{t}/scenarios"), 500);
+        rep.must(&format!("client/{t}/genuine-completed"), 800);
+        rep.must(&format!("client/{t}/delivered/byte-edit"), 2500);
+        for k in ["unsigned", "other-secret", "other-key-name", "other-request-mac", "no-request-mac", "stale-time", "empty-mac"] {
+            rep.must(&format!("client/{t}/delivered/{k}"), 500);
+        }
+        rep.must(&format!("client/{t}/outcome/err"), 5000);
+    }
+    // leak clause
+    rep.must("leak/invalid_requests_with_prereq_judged", 300_000);
+    rep.must("leak/differential_pairs", 300_000);
+    rep.must("leak/pairs-distinguished-by-valid-request", 250);
 
     let mut rng = ctx.rng("base");
     let n_base = ctx.budget(320, 6000);
@@ -940,6 +1059,10 @@ fn main() {
         check_reply(&mut rep, &mut cache, &mut w, &unsigned, key_idx, time, time + FUDGE - 1, false);
         check_reply(&mut rep, &mut cache, &mut w, &unsigned, key_idx, time, time - (FUDGE - 1), false);
 
+        // client-side transports with a signer (multiplexer with everything in flight, UDP)
+        let bits: Vec<u32> = (0..4).map(|_| rs.next_u32()).collect();
+        check_client(&mut rep, &mut w, req_kind, &unsigned, key_idx, time, &bits, &["mux", "udp"]);
+
         let Ok((signed, _)) = sign_base(&unsigned, &key, time) else { continue };
         // the differential of the leak clause is only meaningful if the AUTHENTIC request tells the
         // two servers apart
@@ -955,6 +1078,9 @@ fn main() {
                 rep.count("leak/pairs-not-distinguished/z-request-refused");
             } else {
                 rep.count("leak/pairs-not-distinguished");
+                let (a, b2) = (rc_a.map(rcode_name), ob.rcode.map(rcode_name));
+                let cj = case_json(&w, Some(b), "request", req_kind, &unsigned, key_idx, time, &signed, time, "genuine@twin");
+                rep.note(&format!("pair-not-distinguished-{i}"), json!({"rcode_a": a, "rcode_b": b2, "case": cj}));
             }
         }
         let u2 = unsigned.clone();
